@@ -1463,7 +1463,12 @@ class Array(DaskMethodsMixin):
 
     @cached_property
     def _key_array(self):
-        return np.array(self.__dask_keys__(), dtype=object)
+        keys = self.__dask_keys__()
+        if not self.chunks:
+            # a 0-d array has a single block, whose key __dask_keys__ wraps in a
+            # list: without unwrapping, the array would gain a dimension
+            keys = keys[0]
+        return np.array(keys, dtype=object)
 
     @cached_property
     def numblocks(self):
